@@ -20,4 +20,11 @@ PY
   cargo +nightly miri run --offline -q -p gendrv -- nop >/dev/null 2>&1 || true
   cargo +nightly miri run --offline -q -p envdrv </dev/null >/dev/null 2>&1 || true
 )
+# ThreadSanitizer build of the stampede driver (std rebuilt with instrumentation); a failure here is reported by C08 as inconclusive
+(
+  cd harness
+  export RUSTFLAGS="-Zsanitizer=thread --cfg graphql_client_verif --check-cfg cfg(graphql_client_verif)"
+  export CARGO_TARGET_DIR=../.build/target-tsan
+  cargo +nightly build --offline -q -Zbuild-std --target x86_64-unknown-linux-gnu -p gendrv >/dev/null 2>&1 || true
+)
 echo "setup done"
